@@ -61,6 +61,37 @@ def work_degenerate(chunk, st):
         st.sample({'arch': 'D2', 'gex_group': {'p': p, 'g': g}, 'status': res.status}, cap=14)
 
 
+# environment answers around the listening socket of a client audit
+def check_client_environment(st):
+    import socket as _s
+    from mc import runner, vnet
+    V4, V6 = int(_s.AF_INET), int(_s.AF_INET6)
+    for bind_fail in ((), (V4,), (V6,), (V4, V6)):
+        for fam in (4, 6, None):
+            for opts in (['-t', '3'], ['-t', '3', '-j'], ['-t', '3', '-p', '2022']):
+                cli = None
+                if fam is not None:
+                    cli = peer.Client(label='G', family=fam, addr=('192.0.2.77', 40000) if fam == 4 else ('2001:db8::77', 40000, 0, 0),
+                                      kex=['curve25519-sha256'], key=['ssh-ed25519'], enc=['aes256-ctr'], mac=['hmac-sha2-256'])
+                w = vnet.World(clients=[cli] if cli else [])
+                w.bind_fail = set(bind_fail)
+                res = runner.run_cli(['-c', '-n'] + opts, w)
+                reachable = cli is not None and ({4: V4, 6: V6}[fam] not in bind_fail)
+                st.execution(w, outcome=('client-env', res.status, reachable), root=('client-env', bind_fail, fam, tuple(opts)), nontrivial=('client-env', bind_fail, fam, tuple(opts)))
+                d = {'bind_fails_for': list(bind_fail), 'client_family': fam, 'opts': opts, 'status': res.status, 'stdout_tail': res.stdout[-200:], 'stderr_tail': res.stderr[-200:]}
+                if res.hang or res.exc or res.status not in (0, 1, 2, 3):
+                    st.violation('client-env:crash-or-hang', dict(d, hang=res.hang, exc=res.exc))
+                    continue
+                if res.clock > 3 + 5 * 2 + 2:
+                    st.violation('client-env:too-slow', dict(d, clock=res.clock))
+                shown = 'curve25519-sha256' in res.stdout
+                if reachable and (not shown or res.status not in (0, 2, 3)):
+                    st.violation('client-env:reachable-client-not-audited', d)
+                if not reachable and (shown or res.status != 1):
+                    st.violation('client-env:no-client-but-status-%s' % res.status, d)
+    st.sample({'client_audit_environment': 'bind failures x client address family x options'}, cap=20)
+
+
 def run(tier, seed):
     t0 = time.time()
     st = evidence.Stats()
@@ -88,6 +119,7 @@ def run(tier, seed):
     else:
         par.pmap(work, all_tasks, extra=(False,), stats=st)
     par.pmap(work_degenerate, degenerate_gex_tasks(), stats=st, procs=1)
+    check_client_environment(st)
     bound_done = 2 if second else 1
     # trace validation: cooperative run of every archetype, one trace per fault kind, plus a seed-selected sample
     vcases = []
